@@ -156,6 +156,23 @@ inline std::vector<NamedProg> family_c() {
 	}
 	{ NamedProg p; p.name = "branch-distance:k=1";   // CBRANCH directly after the writer
 	  for (int v = 0; v < 2; ++v) { p.w[v].assign((size_t)prog_size(v + 1), filler()); p.w[v][0] = W(IT::IXOR_R, 3, 3, 0, 0xFF00); p.w[v][1] = W(IT::CBRANCH, 3, 0, 0, 0); } out.push_back(p); }
+	// last-writer bookkeeping with the branch FORCED taken (added after seeded change agent3_C19, DESIGN.md 8.9):
+	// r := 0; r ^= 0xFF << b; X (non-idempotent, reads r); N (an instruction that touches r but must not count as a
+	// modification of it); Y; CBRANCH r with imm 0 -> taken exactly once per iteration, correct target = slot 2 (so X runs twice).
+	for (int r = 0; r < 8; ++r) for (int cond : { 0, 9, 15 }) {
+		const int o = (r + 1) & 7, q = (r + 2) & 7;
+		const Word cands[] = { W(IT::IMUL_RCP, r, 0, 0, 0), W(IT::IMUL_RCP, r, 0, 0, 1), W(IT::IMUL_RCP, r, 0, 0, 0x80000000u), W(IT::IMUL_RCP, r, 0, 0, 65536), W(IT::ISWAP_R, r, r, 0, 0),
+			W(IT::ISTORE, r, o, 0x01, 0x40), W(IT::ISTORE, o, r, 0xE0, 0x80), W(IT::CFROUND, 0, r, 0, 7), W(IT::FADD_M, 1, r, 0x01, 0x100), W(IT::FDIV_M, 2, r, 0x00, 0x208), W(IT::IADD_M, o, r, 0x01, 0x18), W(IT::IXOR_R, o, r, 0, 0),
+			W(IT::FSWAP_R, r, 0, 0, 0), W(IT::IMUL_RCP, o, 0, 0, 5), filler() };
+		int ci = 0;
+		for (const Word& N : cands) {
+			NamedProg p; p.name = "writer-taken:r" + std::to_string(r) + ":cond=" + std::to_string(cond) + ":cand=" + std::to_string(ci++);
+			for (int v = 0; v < 2; ++v) { int S = prog_size(v + 1); std::vector<Word>& w = p.w[v]; w.assign((size_t)S, filler());
+				w[0] = W(IT::IMUL_R, r, r, 0, 0); w[1] = W(IT::IXOR_R, r, r, 0, 0xFFu << (cond + 8));
+				w[2] = W(IT::IADD_RS, q, r, 0x04, 0); w[3] = N; w[4] = W(IT::ISTORE, q, o, 0x01, 0x1238); w[5] = W(IT::CBRANCH, r, 0, cond << 4, 0); w[6] = W(IT::IADD_RS, o, q, 0, 0); }
+			out.push_back(p);
+		}
+	}
 	// exactly k effective IMUL_RCP (12 literal registers, then ldr-literal form)
 	for (int k : { 0, 1, 2, 3, 4, 5, 6, 7, 8, 9, 10, 11, 12, 13, 14, 64, 65, 255, 256, 384 }) {
 		NamedProg p; p.name = "imul_rcp-count:k=" + std::to_string(k);
